@@ -105,14 +105,14 @@ fn decode_polygon_offsets<S: TShape, const B: usize>() {
     kani::cover!(r.is_ok(), "some offsets are accepted");
     std::mem::forget(r);
 }
-// H: tier=quick; unwind=5; sym=2 part offsets (each in -2..=3) of a Polygon record with concrete counts (2 rings, 2 points) and zero coordinates; call=Polygon::read_from incl. ring classification; asserts=no panic for empty rings (equal offsets), decreasing / negative / huge offsets beyond the listed findings
+// H: tier=quick; unwind=5; mem_gb=20; timeout=1500; sym=2 part offsets (each in -2..=3) of a Polygon record with concrete counts (2 rings, 2 points) and zero coordinates; call=Polygon::read_from incl. ring classification; asserts=no panic for empty rings (equal offsets), decreasing / negative / huge offsets beyond the listed findings
 #[kani::proof]
 #[kani::unwind(5)]
 #[kani::stub(std::vec::Vec::with_capacity, crate::env::with_capacity_model)]
 fn c07_q_decode_polygon_offsets_zero_coords() {
     decode_polygon_offsets::<Polygon, 84>();
 }
-// H: tier=thorough; unwind=9; sym=2 part offsets (each in -2..=3) of a PolygonZ record with concrete counts and zero coordinates; call=PolygonZ::read_from; asserts=as above
+// H: tier=manual; unwind=9; sym=2 part offsets (each in -2..=3) of a PolygonZ record with concrete counts and zero coordinates; call=PolygonZ::read_from; asserts=as above
 #[kani::proof]
 #[kani::unwind(9)]
 #[kani::stub(std::vec::Vec::with_capacity, crate::env::with_capacity_model)]
